@@ -8,3 +8,10 @@ func VerifSetMaxPostMsgLength(n int64) int64 {
 	maxPostMsgLength = n
 	return old
 }
+
+// VerifDnsClientConfigC56 builds the upstream client from conf with NewDnsClient and reports how the miekg dns.Client
+// is configured: network, advertised UDP size, timeout in ms, SingleInflight, and the retry count / address kept.
+func VerifDnsClientConfigC56(conf *DnsConf) (string, int, int64, bool, int, string) {
+	c := NewDnsClient(conf)
+	return c.client.Net, int(c.client.UDPSize), int64(c.client.Timeout / 1000000), c.client.SingleInflight, c.retryMax, c.address
+}
